@@ -820,7 +820,6 @@ class Builder:
                     names = self._tok_pat(body["pat"])
                     if names is not None:
                         return ("tok", names)
-                return None
             cs = self._bool_cs(body, var)
             if cs is not None:
                 return ("cs", cs)
